@@ -48,10 +48,11 @@ def setup_worker():
 def plan(tier):
     if tier == "quick":
         return [("base", {"lines": 0}, 12000, 250), ("lines", {"lines": 1}, 4000, 250), ("df", {"df": 1}, 4000, 100),
-                ("iofault", {"lines": 0, "iofault": 1}, 2500, 250)]
+                ("iofault", {"lines": 0, "iofault": 1}, 2500, 250), ("hot", {"lines": 1, "hot": HOT, "hot_budget": 3}, 3000, 250)]
     # thorough adds a 'deep' configuration beyond the bounds of the property text: up to 3 operations per client
     return [("base", {"lines": 0}, 400000, 1000), ("lines", {"lines": 1}, 150000, 1000), ("df", {"df": 1}, 80000, 250),
-            ("deep", {"lines": 1, "deep": 1}, 100000, 500), ("iofault", {"lines": 0, "iofault": 1}, 60000, 500)]
+            ("deep", {"lines": 1, "deep": 1}, 100000, 500), ("iofault", {"lines": 0, "iofault": 1}, 60000, 500),
+            ("hot", {"lines": 1, "hot": HOT, "hot_budget": 3}, 100000, 500)]
 
 
 class _Time:
@@ -68,6 +69,8 @@ class _Time:
 
 
 ROOT = "/c"
+# functions of the cache whose every source line is a pre-emption chance of its own in the 'hot' configuration
+HOT = ["get_file", "update_file", "unload_file", "_unload_file", "_write_file", "_load_file", "update_file_futures_and_memory", "recover_memory"]
 
 
 def _linearizable(ops, init, limit=None):
@@ -177,7 +180,7 @@ def scenario(ch, cfg):
     cache.file_futures_lock = SimLock(w, "cachelock")
     cache.executor = SimExecutor(w, "w")
     if cfg.get("lines"):
-        w.enable_line_preemption([fc.__file__], 1 + ch.draw(3, "budget"), gap=60)
+        w.enable_line_preemption([fc.__file__], 1 + ch.draw(3, "budget"), gap=60, hot=cfg.get("hot", ()), hot_budget=cfg.get("hot_budget", 0))
     # fault-injecting configuration (kept apart from the fault-free ones): one transient read error.  The
     # relaxation is narrow: a get may then raise OSError and is left out of the history; a load entry whose
     # future failed may stay behind; everything else (updates, other gets, disk/cache agreement, accounting of
